@@ -317,7 +317,7 @@ impl CompressedUsedLeafsIndexes {
     pub fn to<H: HashChain>(
         &self,
         parameters: &ArrayVec<[HssParameter<H>; MAX_ALLOWED_HSS_LEVELS]>,
-    ) -> [u32; MAX_ALLOWED_HSS_LEVELS] {
+    ) -> Result<[u32; MAX_ALLOWED_HSS_LEVELS], ()> {
         let mut lms_leaf_identifier_set = [0u32; MAX_ALLOWED_HSS_LEVELS];
         let mut compressed_used_leafs_indexes = self.count;
 
@@ -327,16 +327,27 @@ impl CompressedUsedLeafsIndexes {
                 (compressed_used_leafs_indexes & (2u32.pow(tree_height) - 1) as u64) as u32;
             compressed_used_leafs_indexes >>= tree_height;
         }
-        lms_leaf_identifier_set
+        // Anything left over means the counter lies beyond the last leaf of the key: such a
+        // counter must not wrap around onto leaves that were already used.
+        if compressed_used_leafs_indexes != 0 {
+            return Err(());
+        }
+        Ok(lms_leaf_identifier_set)
     }
 
     pub fn increment(
         &mut self,
         tree_heights: &ArrayVec<[u8; MAX_ALLOWED_HSS_LEVELS]>,
     ) -> Result<(), ()> {
-        let total_tree_height: u32 = tree_heights.iter().sum::<u8>().into();
+        let total_tree_height: u32 = tree_heights.iter().map(|height| *height as u32).sum();
 
-        if self.count >= (2u64.pow(total_tree_height) - 1) {
+        // Keys with 2^64 or more leaves can never be exhausted by a 64 bit counter
+        let last_leaf = if total_tree_height >= u64::BITS {
+            u64::MAX
+        } else {
+            (1u64 << total_tree_height) - 1
+        };
+        if self.count >= last_leaf {
             return Err(());
         }
 
